@@ -21,6 +21,14 @@ Lemma skeleton :
   = (true, true, true, false, true, false, 1, 7, 0).
 Proof. reflexivity. Qed.
 
+(* the whole statement skeletons (kind and nesting of every statement, in source order) of
+   editScriptFunc, of the exported wrapper EditScript -- a single return of the one call of
+   editScriptFunc, nothing in front of it (no fast path) -- and of equal *)
+Lemma skeleton_shape :
+  (es_shape, es_pub_shape, es_equal_shape, es_pub_ncalls)
+  = (25326467634256389612761582159554072032967164649697477260849120661034913615, 3663, 3663, 1).
+Proof. reflexivity. Qed.
+
 (* every slice expression is a two-index one (no capacity limit s[lo:hi:max]) *)
 Lemma skeleton_slices : forall z,
   (es_fuse_x_max z, es_fuse_y_max z, es_drop_x_max z, es_copy_y_max z, es_emit_x_max z,
